@@ -1,4 +1,5 @@
 use crate::delta::{DiffType, Source, State, StateMachine};
+use crate::handlers::diff_header::BINARY_FILE_NOTE;
 
 impl StateMachine<'_> {
     #[inline]
@@ -36,10 +37,10 @@ impl StateMachine<'_> {
             // (The names stem from the file operation line handler, which has
             // made them relative to the current directory if requested.)
             if self.minus_file != "/dev/null" {
-                self.minus_file.push_str(" (binary file)");
+                self.minus_file.push_str(BINARY_FILE_NOTE);
             }
             if self.plus_file != "/dev/null" {
-                self.plus_file.push_str(" (binary file)");
+                self.plus_file.push_str(BINARY_FILE_NOTE);
             }
             return Ok(true);
         }
